@@ -1,10 +1,27 @@
 import MazeVerif.DriverOps.Util
+import MazeVerif.Model.AStar
 namespace MZ.Drv.C02
-open Lean MZ.Drv
+open Lean MZ.Drv MZ MZ.AStar
 
-/-- driver ops of property C02 (`"op": "C02.<name>"`) -/
-def handle (op : String) (_j : Json) : R Json := do
+def jResult : Result → Json
+  | .found p => obj [("res", "found"), ("path", jCells p)]
+  | .noPath => obj [("res", "noPath")]
+  | .illegalPick => obj [("res", "illegalPick")]
+  | .outOfPicks => obj [("res", "outOfPicks")]
+  | .outOfFuel => obj [("res", "outOfFuel")]
+
+/-- `C02.astar` {rows, cols, edges, queries: [{start, end, picks}]} → {results: [...]}; fuel = rows*cols+1 (C02_total) -/
+def handle (op : String) (j : Json) : R Json := do
   match op with
+  | "C02.astar" =>
+    let rows ← getNat j "rows"; let cols ← getNat j "cols"
+    let E ← getEdges j "edges"
+    let qs ← getArr j "queries"
+    let rs ← qs.mapM fun q => do
+      let s ← getCell q "start"; let e ← getCell q "end"
+      let picks ← getCells q "picks"
+      pure (jResult (astar rows cols E s e picks (rows * cols + 1)))
+    pure (obj [("results", Json.arr rs.toArray), ("wf", decide (WF rows cols E))])
   | _ => throw s!"unknown op {op}"
 
 end MZ.Drv.C02
